@@ -28,7 +28,7 @@ pub const CLTV_FAR_FAR_AWAY: u32 = 14 * 24 * 6;
 pub const MIN_FINAL_CLTV_EXPIRY_DELTA: u16 = HTLC_FAIL_BACK_BUFFER as u16 + 3;
 
 
-pub enum LocalHTLCFailureReason { FeeInsufficient, IncorrectCLTVExpiry, CLTVExpiryTooSoon, CLTVExpiryTooFar, OutgoingCLTVTooSoon, AmountBelowMinimum }
+pub enum LocalHTLCFailureReason { FeeInsufficient, IncorrectCLTVExpiry, CLTVExpiryTooSoon, CLTVExpiryTooFar, OutgoingCLTVTooSoon, AmountBelowMinimum, UnknownNextPeer }
 pub struct UpdateAddHTLC { pub amount_msat: u64, pub cltv_expiry: u32 }
 #[derive(Clone, Copy)]
 pub struct ChannelConfig { pub forwarding_fee_proportional_millionths: u32, pub forwarding_fee_base_msat: u32, pub cltv_expiry_delta: u16 }
@@ -173,6 +173,53 @@ proof fn vac__check_incoming_htlc_cltv(cur_height: u32, outgoing_cltv_value: u32
     ensures false
 {}
 
+// ---- a forward to a channel we do NOT have (to be intercepted, or a phantom hop): the arm of can_forward_htlc_should_intercept that stands in for the per-channel policy, and the expiry test every forward goes through (deep R15 slice) ----
+pub struct Mgr { pub id: u64 }
+pub uninterp spec fn phantom_scid(m: Mgr, scid: u64) -> bool;
+pub uninterp spec fn intercept_unknown(m: Mgr, scid: u64) -> bool;
+pub mod fake_scid { #[allow(unused_imports)] use super::*; use vstd::prelude::*;
+    #[verifier::external_body] pub fn is_valid_phantom(m: &Mgr, scid: u64, h: &Mgr) -> (r: bool) ensures r == phantom_scid(*m, scid) { unimplemented!() } }
+impl Mgr {
+    #[verifier::external_body] pub fn forward_needs_intercept_to_unknown_chan(&self, scid: u64) -> (r: bool) ensures r == intercept_unknown(*self, scid) { unimplemented!() }
+fn admit_a_forward_to_a_channel_we_do_not_have(&self, msg: &UpdateAddHTLC, next_hop: &NextPacketDetails, outgoing_scid: u64, cur_height: u32) -> (r: Result<bool, LocalHTLCFailureReason>)
+    requires
+    cur_height <= 0x7fff_ffff,
+
+    ensures
+    r is Ok ==> next_hop.outgoing_amt_msat <= msg.amount_msat
+        && msg.cltv_expiry as int >= next_hop.outgoing_cltv_value + MIN_CLTV_EXPIRY_DELTA
+        && msg.cltv_expiry as int > cur_height + HTLC_FAIL_BACK_BUFFER && msg.cltv_expiry as int <= cur_height + CLTV_FAR_FAR_AWAY
+        && next_hop.outgoing_cltv_value as int > cur_height + LATENCY_GRACE_PERIOD_BLOCKS
+        && (phantom_scid(*self, outgoing_scid) || intercept_unknown(*self, outgoing_scid))
+        && r->Ok_0 == !phantom_scid(*self, outgoing_scid),
+ {
+        let intercept = { if next_hop.outgoing_amt_msat > msg.amount_msat {
+						return Err(LocalHTLCFailureReason::FeeInsufficient);
+					}
+					let cltv_delta = msg.cltv_expiry.saturating_sub(next_hop.outgoing_cltv_value);
+					if cltv_delta < MIN_CLTV_EXPIRY_DELTA.into() {
+						return Err(LocalHTLCFailureReason::IncorrectCLTVExpiry);
+					}
+
+					if fake_scid::is_valid_phantom(
+						self, outgoing_scid, self,
+					) {
+						false
+					} else if self.forward_needs_intercept_to_unknown_chan(outgoing_scid) {
+						true
+					} else {
+						return Err(LocalHTLCFailureReason::UnknownNextPeer);
+					} };
+        check_incoming_htlc_cltv( cur_height,
+			next_hop.outgoing_cltv_value,
+			msg.cltv_expiry,
+			MIN_CLTV_EXPIRY_DELTA, )?; Ok(intercept) }
+
+proof fn vac__admit_a_forward_to_a_channel_we_do_not_have(&self, msg: &UpdateAddHTLC, next_hop: &NextPacketDetails, outgoing_scid: u64, cur_height: u32) 
+    requires cur_height <= 0x7fff_ffff,
+    ensures false
+{}
+}
 // (P, C08) the end-to-end race is won for every height / expiry, given the acceptance postcondition
 pub proof fn lemma_forward_race(h: int, incoming: int, outgoing: int, delta: int)
     requires delta >= MIN_CLTV_EXPIRY_DELTA, incoming >= outgoing + delta
